@@ -21,7 +21,7 @@ CHECKS = {
 CHECKS["C07"] = {
     "level": "model_checking",
     "rule": "Engine A: every event sequence (depth 5 quick / 6 thorough, after Allocate) over {CreatePermission [A],[B],[A,B],[A,V6-wrong-family],[A2 = other port of A's host], "
-            "ChannelBind (n1,A),(n2,B),(n1,B),(n2,A),(n2,A2), clock advance to next deadline -/+1ns, -/+1s, by min-timeout/2} x 3 (permission,channel) timeout "
+            "ChannelBind (n1,A),(n2,B),(n1,B),(n2,A),(n2,A2), Refresh of the allocation, clock advance to next deadline -/+1ns, -/+1s, by min-timeout/2} x 3 (permission,channel) timeout "
             "configurations on the real turn.Server in virtual time; after every event the response and a probe sweep in both directions "
             "(3 peers incl. same-IP-other-port, 2 channel numbers) are compared with the reference model whose entries live exactly one timeout "
             "past the last successful install/refresh; then a drain through every remaining deadline at -1ns/+1ns.",
